@@ -86,7 +86,7 @@ def images_desc(draw, max_images=8):
         out.append({"rec": rec, "cells": cells, "share_object": draw(st.booleans()),
                     # rarely: the image is taken out of its cells again (leaves empty cells behind)
                     "removed": draw(st.integers(0, 11)) == 0})
-    return {"compose": draw(gen.compose_section_desc()), "images": out}
+    return {"compose": draw(gen.compose_section_desc()), "images": out, "refile": draw(st.booleans())}
 
 
 def make_image(parent, rec):
@@ -120,6 +120,11 @@ def build_images(desc, plan=0, version="1.2"):
         rnd.shuffle(adds)
     for variant, arch, img in adds:
         im.add(variant, arch, img)
+    if desc.get("refile"):
+        # filing an object where it already is changes nothing (a unified image filed under its own variant and under each of its
+        # additional variants, one of which is its own)
+        for variant, arch, img in adds[::2]:
+            im.add(variant, arch, img)
     for entry in desc["images"]:
         if entry.get("removed"):
             for variant, arch in entry["cells"]:
